@@ -149,7 +149,7 @@ def gen_case(rng, quick, idx):
         while n_out + n_err > budget // k:
             n_out //= 2
             n_err //= 2
-        chans.append(dict(direction=rng.choice(("c2s", "s2c")), n_out=n_out, n_err=n_err,
+        chans.append(dict(direction=rng.choice(("c2s", "s2c")), opened_by=rng.choice("ccs"), n_out=n_out, n_err=n_err,
                           maxread=rng.choice((1, 10, 1000, 40000, 1 << 20)) if n_out + n_err < 30000
                           else rng.choice((1000, 40000, 1 << 20)),
                           ptoggle=rng.choice((0, 0.02, 0.2)), end_combined=rng.random() < 0.4,
@@ -160,7 +160,7 @@ def gen_case(rng, quick, idx):
     if idx == 1:  # every shard: toggles while stderr keeps arriving, application thread perturbed inside the switch
         chans[0].update(n_out=1000, n_err=120000, ptoggle=0.2, perturb=0.003, slow=True, maxread=1000,
                         end_combined=False, window=None)
-    return dict(channels=chans, compress=rng.random() < 0.35, rekeys=rng.choice((0, 0, 1, 3)),
+    return dict(channels=chans, churn=rng.choice((0, 0, 1, 3)), compress=rng.random() < 0.35, rekeys=rng.choice((0, 0, 1, 3)),
                 rekey_side=rng.choice("cs"), latency=rng.choice((0, 0, 0.001)))
 
 
@@ -226,11 +226,36 @@ def run_case(ctx, case, rng, seedbase):
             else:
                 ctx.count("cases_with_compression")
         chans = []
+        cm.diverge_ids(p, rng)
+        inbound = []
+        if any(sp["opened_by"] == "s" for sp in case["channels"]):
+            boot = p.tc.open_session()
+            boot.request_x11(handler=lambda ch, addr: inbound.append(ch))  # client now accepts server-opened x11 channels
+            p.ts.accept(10)
+            if case["churn"]:
+                boot.close()  # frees an id on both sides: later channels re-use / skip differently
+        for k in range(case["churn"]):
+            tmp, tmp_s = p.session()
+            (tmp if k % 2 else tmp_s).close()
         for i, spec in enumerate(case["channels"]):
-            c, s = p.session(window_size=spec["window"])
+            if spec["opened_by"] == "s":
+                n0 = len(inbound)
+                s = p.ts.open_channel("x11", src_addr=("x", 6000 + i), window_size=spec["window"], timeout=30)
+                if not pair.wait_for(lambda: len(inbound) > n0, 20, 0.002):
+                    ctx.inconclusive("client never saw the server-opened channel %d" % i)
+                    return
+                c = inbound[n0]
+                ctx.count("server_opened_channels")
+            else:
+                c, s = p.session(window_size=spec["window"])
             if s is None:
                 ctx.inconclusive("server did not see channel %d" % i)
                 return
+            if c.chanid != c.remote_chanid:
+                ctx.count("channels_with_local_id_ne_remote_id")
+            ids = [x.c.chanid for x in chans]
+            if c.remote_chanid in ids or any(x.c.remote_chanid == c.chanid for x in chans):
+                ctx.count("channels_whose_remote_id_is_another_live_local_id")
             w, r = (c, s) if spec["direction"] == "c2s" else (s, c)
             chans.append(Chan(i, w, r, spec, seedbase))
             chans[-1].c, chans[-1].s = c, s
@@ -366,3 +391,6 @@ def run(ctx):
     ctx.require("cases_with_compression", 3)
     ctx.require("exit_statuses_compared", 40)
     ctx.require("multi_channel_cases", 10)
+    ctx.require("channels_with_local_id_ne_remote_id", 60)
+    ctx.require("channels_whose_remote_id_is_another_live_local_id", 15)
+    ctx.require("server_opened_channels", 15)
